@@ -322,7 +322,9 @@ func (b *defaultBinder) Bind(req *protocol.Request, v interface{}, params param.
 
 // best effort binding
 func (b *defaultBinder) preBindBody(req *protocol.Request, v interface{}) error {
-	if req.Header.ContentLength() <= 0 {
+	// a streamed body of unknown length (chunked, on a server that streams request
+	// bodies) has no Content-Length but is a body all the same
+	if req.Header.ContentLength() <= 0 && !req.IsBodyStream() {
 		return nil
 	}
 	ct := bytesconv.B2s(req.Header.ContentType())
